@@ -763,6 +763,12 @@ func (h *memoHarness) runConcurrent(t *testing.T, c *MemoCase) *Outcome {
 		}
 		return fail(cls, "%s answered %q/%v, which is the wrapped store's answer in none of the states S%d..S%d it may observe", e.op.desc(c), e.keys, e.b, imin, jmax)
 	}
+	if overlap {
+		o.stat("probe_read_overlaps_write", 1)
+	}
+	if res.LockWaits > 0 {
+		o.stat("probe_lock_waits", int64(res.LockWaits))
+	}
 	o.NonTrivial = res.Decisions > 0 && overlap
 	o.Hash = hashStr(fmt.Sprintf("conc%s|%x", render(), res.SchedHash))
 	c2 := *c
